@@ -293,3 +293,119 @@ func VerifC11KeywordInLiteral() {
 	zzverif.Assert(len(got.SimpleFields) == len(canon.SimpleFields), "keyword-in-literal-keeps-select-items")
 	_ = cond
 }
+
+var verifPrefixes = []string{
+	"SELECT a FROM s JOIN t ON ",
+	"SELECT a FROM s JOIN t ON a = ",
+	"SELECT lag(a) OVER (PARTITION BY ",
+	"SELECT a FROM s WHERE ",
+	"SELECT a FROM s GROUP BY ",
+	"SELECT a FROM s ORDER BY ",
+	"SELECT a AS ",
+	"SELECT ",
+	"SELECT a FROM ",
+	"SELECT * FROM s MATCH_RECOGNIZE (PARTITION BY ",
+	"SELECT * FROM s MATCH_RECOGNIZE (ORDER BY ts MEASURES x AS ",
+	"SELECT * FROM s MATCH_RECOGNIZE (ORDER BY ts PATTERN (",
+	"SELECT * FROM s MATCH_RECOGNIZE (ORDER BY ts PATTERN (A B) DEFINE ",
+	"SELECT * FROM s MATCH_RECOGNIZE (ORDER BY ts AFTER MATCH SKIP TO ",
+	"SELECT * FROM s MATCH_RECOGNIZE (ORDER BY ts PATTERN (A B) SUBSET S = (",
+	"SELECT a FROM s LIMIT ",
+	"SELECT a FROM s WITH (",
+	"SELECT a FROM s GROUP BY TumblingWindow(",
+}
+
+// VerifC11ParseTail: totality of the whole parser (rsql.Parse: every clause parser, the raw-input
+// re-scans, AST -> Config) at the positions where clause parsers unquote or re-slice what follows: a
+// concrete statement prefix ending inside a clause, followed by n ARBITRARY bytes (all 256^n tails at
+// once). Parse returns an error or a configuration; a panic ends the path as a violation.
+func VerifC11ParseTail() {
+	prefix := verifPrefixes[zzverif.Param("prefix", 0)]
+	n := zzverif.Param("n", 1)
+	tail := zzverif.NondetBytes("tail", n)
+	cfg, _, err := Parse(prefix + tail)
+	zzverif.ObserveB("err", err != nil)
+	zzverif.Assert(err != nil || cfg != nil, "parse-returns-error-or-config")
+}
+
+// VerifC11Clauses: the configuration reflects exactly the written clauses, for every combination of
+// optional parts: ORDER BY with 1..3 keys each written bare, ASC or DESC (upper, lower or mixed case), LIMIT
+// present or not, DISTINCT present or not, select items with and without alias in the written order.
+// The oracle is the generator's own structure, not another parse.
+func VerifC11Clauses() {
+	nkeys := zzverif.Param("nkeys", 2)
+	// the second column's name ends in an arbitrary lower-case letter or digit (solver-decided: no
+	// spelling of the identifier may be taken for a keyword or change the clause structure)
+	symid := zzverif.Param("symid", 0) == 1
+	dev := "deviceId"
+	distinct, withLimit, withAlias := false, true, false
+	if symid {
+		tailByte := zzverif.NondetBytes("idtail", 1)
+		zzverif.Assume(tailByte[0] >= 'a' && tailByte[0] <= 'z' || tailByte[0] >= '0' && tailByte[0] <= '9' || tailByte[0] == '_')
+		dev = "deviceI" + tailByte
+	} else {
+		distinct = zzverif.Choose("distinct", 2) == 1
+		withLimit = zzverif.Choose("limit", 2) == 1
+		withAlias = zzverif.Choose("alias", 2) == 1
+	}
+	keys := []string{"c", dev, "m"}
+	sql := "SELECT "
+	if distinct {
+		sql += "DISTINCT "
+	}
+	if withAlias {
+		sql += "c AS cc, " + dev + ", m AS mm"
+	} else {
+		sql += "c, " + dev + ", m"
+	}
+	sql += " FROM stream ORDER BY "
+	dirs := make([]int, nkeys)
+	for i := 0; i < nkeys; i++ {
+		if i > 0 {
+			sql += ", "
+		}
+		sql += keys[i]
+		nd := 5
+		if symid {
+			nd = 3
+		}
+		d := zzverif.Choose("dir", nd) // bare, ASC, DESC, asc, Desc
+		dirs[i] = []int{0, 1, 2, 1, 2}[d]
+		sql += []string{"", " ASC", " DESC", " asc", " Desc"}[d]
+	}
+	if withLimit {
+		sql += " LIMIT 7"
+	}
+	cfg, _, err := Parse(sql)
+	zzverif.Assert(err == nil && cfg != nil, "statement-parses")
+	if err != nil || cfg == nil {
+		return
+	}
+	zzverif.Assert(len(cfg.OrderBy) == nkeys, "order-by-has-the-written-keys")
+	if len(cfg.OrderBy) == nkeys {
+		for i := 0; i < nkeys; i++ {
+			want := types.SortAsc
+			if dirs[i] == 2 {
+				want = types.SortDesc
+			}
+			zzverif.Assert(cfg.OrderBy[i].Expression == keys[i], "order-by-key-is-the-written-column")
+			zzverif.Assert(cfg.OrderBy[i].Direction == want, "order-by-direction-is-the-written-one-default-asc")
+		}
+	}
+	wantLimit := 0
+	if withLimit {
+		wantLimit = 7
+	}
+	zzverif.Assert(cfg.Limit == wantLimit, "limit-is-the-written-one")
+	zzverif.Assert(cfg.Distinct == distinct, "distinct-is-the-written-one")
+	zzverif.Assert(len(cfg.SimpleFields) == 3, "select-items-in-order")
+	if len(cfg.SimpleFields) == 3 {
+		wantF := []string{"c", dev, "m"}
+		if withAlias {
+			wantF = []string{"c:cc", dev, "m:mm"}
+		}
+		for i := range wantF {
+			zzverif.Assert(cfg.SimpleFields[i] == wantF[i], "select-item-and-alias-as-written")
+		}
+	}
+}
